@@ -158,3 +158,7 @@ def set_after_get(inp):
     want = oqupy.compute_dynamics(sys_, initial_state=rho0, process_tensor=fresh, progress_type='silent').states
     dev = float(np.abs(np.array(got) - np.array(want)).max())
     return {'violates': dev > 1e-10, 'max_deviation_from_a_fresh_object_with_the_new_tensors': dev}
+
+
+# thorough tier (bounded native sweeps): (function, inputs, obligation of the open finding it reproduces or None)
+THOROUGH = [('exact_ancilla', {}, None), ('set_after_get', {}, None), ('order_of_environments', {}, 'c03/order-independent[non-commuting-environments]')]
